@@ -567,29 +567,4 @@ theorem stream_safe (lines : List Bytes) (hdom : Spec.Gfx.inDomainOn (lines.map 
   apply safetyLoop_of_good
   exact stream_good lines hdom lines 0 {} [] rfl ⟨fun u hu => by simp at hu, Or.inl rfl⟩
 
-/-! ### the JSON hop changes nothing -/
-
-theorem restore_serialise (s : RState) : restore (some (serialise s)) = s := rfl
-
-theorem serial_stream (parse : RState → Bytes → RState × List Seen) :
-    ∀ (ls : List Bytes) (w : Option Wire) (pos : Nat),
-      (Serial.runFrom parse w pos ls).2 = (Stream.runFrom parse (restore w) pos ls).2 ∧
-        restore (Serial.runFrom parse w pos ls).1 = (Stream.runFrom parse (restore w) pos ls).1 := by
-  intro ls
-  induction ls with
-  | nil => intro w pos; exact ⟨rfl, rfl⟩
-  | cons l ls ih =>
-    intro w pos
-    simp only [Serial.runFrom, Stream.runFrom, cCall]
-    have := ih (some (serialise (parse (restore w) l).1)) (pos + 1)
-    rw [restore_serialise] at this
-    exact ⟨by rw [this.1], this.2⟩
-
-theorem serial_safe (lines : List Bytes) (hdom : Spec.Gfx.inDomainOn (lines.map readTrimmed) = true) :
-    Spec.Gfx.safetyOn (lines.map readTrimmed) (delivsOfStream (Serial.run Stream.parse lines).2) = none := by
-  have := (serial_stream Stream.parse lines none 0).1
-  unfold Serial.run
-  rw [this]
-  exact stream_safe lines hdom
-
 end RawPanelVerif.Gfx
